@@ -80,15 +80,15 @@ theorem sendMsg_quiet (s : St) (i : Nat) (m : Msg) (hq : Quiet s i) (hm : IsTpMs
   have h1 : ¬ (i ≥ s.devs.length) := by omega
   have h2 : ¬ (d.source > Gen.maxCanBusAddress ∧ m.pgn ≠ 60928) := by
     intro h; have : d.source > 251 := h.1; omega
-  simp only [h1, h2, hne, hp0, ↓reduceIte, ne_eq, not_true_eq_false, Bool.false_eq_true, false_and, not_false_eq_true]
+  simp only [h1, h2, hne, hp0, ↓reduceIte, ne_eq, not_true_eq_false, Bool.false_eq_true, false_and]
   unfold produce
   have h3 : m.len ≤ 8 ∧ ¬ (m.prio < 0x80 ∧ isFastPacketPGN s.lists m.pgn = true) := by
     refine ⟨by rw [hm.len]; omega, ?_⟩
     rw [hfp]; simp
-  simp only [h3, and_self, ↓reduceIte]
+  simp only [h3]
   rw [sendFrame_quiet _ _ _ hq.ringEmpty hq.script hq.dflt]
   have ht : m.data.take m.len = m.data := by rw [hm.len, ← hm.dlen]; exact List.take_length
-  simp only [pushSent, tpFrame, hm.len, hm.prio, ht]
+  simp only [pushSent, tpFrame, hm.len, hm.prio]
   rw [hm.len] at ht
   simp [ht]
   exact hq.notListen
